@@ -15,6 +15,11 @@ CHECKS = {
    level_text='Design: TLC checks ConvergedUids/ConvergedFlags on MailboxSync.tla (the change log is modelled exactly as one latest record per UID). Code: every replayed TLC behaviour and every random checkpoint-interleaved execution ends with NOOP on each session at quiescence and a probe of the store; TLC validates C02_ConvergedUids / C02_ConvergedFlags on each recorded execution.',
    level_note='Trusted: TLC, strict response parser, glass-box read of MailboxData._messages as ground truth. \\Recent is excluded from the flag comparison (session flag: C17). Dict backend only.',
    design_ref='DESIGN.md section 7 C02'),
+ 'C12': dict(
+   technique='TLC checks the action property ReadOnlyInert on MailboxSync.tla; random programs of message commands issued inside a read-only selection on the real server (checkpoint-interleaved with observing sessions), glass-box dump after every tagged response, validated by TLC against the observer spec Trace_RO.tla',
+   level_text='Design: on MailboxSync.tla TLC checks that no step of a session with a read-only selection changes the store. Code: one session EXAMINEs INBOX or SELECTs a backend-read-only mailbox and issues seeded random programs of every message command and UID variant (STORE incl. \\Recent, \\Seen-setting FETCH, EXPUNGE, UID EXPUNGE, COPY, MOVE, SEARCH, NOOP, CHECK, CLOSE) and APPEND/COPY/MOVE into the read-only mailbox, interleaved at every lock checkpoint with 0-2 observing sessions; after every tagged response a dump (UIDs, permanent flags, stored recent bits) is logged; TLC checks on each recorded execution that every dump equals the baseline, that STORE/EXPUNGE/deliveries into the read-only mailbox answer NO, and that CLOSE answers OK and deselects.',
+   level_note='Trusted: TLC, strict response parser, glass-box dump of MailboxData._messages (incl. Message.recent = what the next read-write session is given). Other sessions only observe, as the property says. APPEND/COPY by the examining session into the examined mailbox are ordinary deliveries (covered by C17 for the \\Recent clause). Dict backend.',
+   design_ref='DESIGN.md section 7 C12'),
  'C16': dict(
    technique='random checkpoint-interleaved executions with idling sessions on slow (drain-gated) connections on the real server, run until no task is runnable, validated by TLC against the observer spec Trace_Sync.tla (IdleCheck / IdleEnd clauses); MailboxSync.tla behaviours replayed as in C01',
    level_text='Seeded schedules place bursts of APPEND/STORE/EXPUNGE/COPY/MOVE by 1-2 writers at every parking point of 1-2 idling sessions, including while the idler is blocked in drain() writing a previous notification; after the burst the loop runs until nothing is runnable and TLC checks on the recorded execution that every change made since "+ idling" (message added, removed, flags changed) has reached the idling client with no further stimulus, that pushed data obeys the C01 clauses, that DONE ends IDLE with OK and anything else with BAD.',
